@@ -708,7 +708,7 @@ def lis_unknown_cases():
         unk = draw(raw)
         if unk in cat_of:  # made unknown by construction
             unk = unk + b'?'
-        other = draw(st.one_of(st.sampled_from(known), st.sampled_from(known), raw))
+        other = draw(st.sampled_from(known)) if draw(st.integers(0, 2)) else draw(raw)  # (one_of would flatten raw)
         if other in cat_of and draw(st.integers(0, 5)) == 0:
             other = unk  # the same unknown name twice
         pair = [unk, other]
